@@ -382,11 +382,12 @@ pub fn run_child() -> i32 {
     }
     use std::sync::atomic::Ordering::SeqCst;
     log.push(format!(
-        "{{\"ev\":\"end\",\"steps\":{steps},\"decisions_consumed\":{consumed},\"threads\":{},\"getrandom_calls\":{},\"clock_calls\":{},\"getpid_calls\":{}}}",
+        "{{\"ev\":\"end\",\"steps\":{steps},\"decisions_consumed\":{consumed},\"threads\":{},\"getrandom_calls\":{},\"clock_calls\":{},\"getpid_calls\":{},\"affinity_calls\":{}}}",
         workers.len(),
         seams::GETRANDOM_CALLS.load(SeqCst),
         seams::CLOCK_CALLS.load(SeqCst),
-        seams::GETPID_CALLS.load(SeqCst)
+        seams::GETPID_CALLS.load(SeqCst),
+        seams::AFFINITY_CALLS.load(SeqCst)
     ));
     let mut out = log.join("\n");
     out.push('\n');
